@@ -76,4 +76,5 @@ FIXED_TEXTS = ["", " ", "\n", "// only a comment", "// c\n", "zzz packet A { u8 
                "root packet A {\n    u8 x `first line\nsecond line`,\n    B b `doc of an object field`,\n}\npacket B {\n}\n",
                "// leading\nroot packet A { // after brace\n    // before attr\n    @tag(1)\n    u8 x, // same line\n    // before rbrace\n}\n// trailing\n",
                "root packet A {\n    u8 k,\n    match k as m {\n        1 : B, // after last pair\n    },\n}\npacket B {\n}\n",
-               "MetaData M {\n    // inside metadata\n    u8 a `d`, // right of entry\n}\n"]
+               "MetaData M {\n    // inside metadata\n    u8 a `d`, // right of entry\n}\n",
+               "// fill ratio 0-100%! %d of %s, 50%% \\n\n// second\nroot packet Order {\n    u32 qty `filled %d of total, in %`, // 100%\n    string note `tab\there \"quoted\" $HOME`,\n}\n"]
